@@ -39,10 +39,11 @@ pub const KNOWN_EXTREME: [f64; 23] = [
 ];
 
 /// Dynamic range (nepers) of ONE cascaded section 1/|A| above which a diverging response is
-/// classified as the listed "beyond double-precision direct form" finding. Measured over
-/// 30 000 thorough cases: every response that reached steady state had <= 27.2 nepers per
-/// section, every diverging one >= 30.9 (e^28 is about 2^40: the root positions then depend on
-/// coefficient bits at the edge of the f64 mantissa).
+/// (or a settled but inaccurate one) is classified as the listed "beyond double-precision
+/// direct form" finding. Measured over 60 000 thorough cases (seeds 2 and 3): every accurate
+/// response had <= 27.2 nepers per section, every diverging one >= 30.9, and the one settled
+/// but inaccurate one (seed 3, idx 13865: 0.29 neper at the peak) had 33.8 (e^28 is about 2^40:
+/// min|A| / sum|a_k| then approaches the f64 epsilon, so the coefficients cannot carry the peak).
 pub const F64_SECTION_RANGE_NEPERS: f64 = 28.0;
 
 pub fn run(ctx: &mut Ctx) {
@@ -130,8 +131,11 @@ fn one_case(ctx: &mut Ctx, idx: usize, w: Vec<f64>, stage: usize, alpha: f64, lo
         ctx.count("frequencies_compared", compared as f64);
         ctx.max("worst_error_nepers", worst);
         ctx.max("frames_to_steady_state", st.frames_used as f64);
+        // beyond the listed per-section range the f64 coefficients themselves cannot carry the
+        // spectrum (rounding the exact A(z) to f64 already moves the peak by > 0.001 neper)
+        let beyond = (gmax - gmin) / stage as f64 > F64_SECTION_RANGE_NEPERS;
         if !(worst <= 0.001) {
-            ctx.violation("spectrum-mismatch", descr().set("worst_error_nepers", worst).set("at_omega", worst_w));
+            ctx.violation(if beyond { "spectrum-mismatch:section-dynamic-range-beyond-f64-direct-form" } else { "spectrum-mismatch" }, descr().set("per_section_nepers", (gmax - gmin) / stage as f64).set("worst_error_nepers", worst).set("at_omega", worst_w));
         }
         // the response to the very first pulse (first frame) must realise the same spectrum
         if st.first_decayed {
@@ -148,7 +152,7 @@ fn one_case(ctx: &mut Ctx, idx: usize, w: Vec<f64>, stage: usize, alpha: f64, lo
             ctx.count("first_frame_responses_measured", 1.0);
             ctx.max("worst_first_frame_error_nepers", worst1);
             if !(worst1 <= 0.001) {
-                ctx.violation("first-frame-spectrum-mismatch", descr().set("worst_error_nepers", worst1));
+                ctx.violation(if beyond { "first-frame-spectrum-mismatch:section-dynamic-range-beyond-f64-direct-form" } else { "first-frame-spectrum-mismatch" }, descr().set("per_section_nepers", (gmax - gmin) / stage as f64).set("worst_error_nepers", worst1));
             }
         }
         let dyn_range = peak - model.iter().cloned().fold(f64::INFINITY, f64::min);
